@@ -51,18 +51,21 @@ def observe (d : DS) (s : S) : DS × String :=
   let ahash := s.accepted.foldl (fun h x => (h ^^^ x.toUInt64) * 1099511628211) d.ahash
   let ctl := String.intercalate "," ((s.ctl.drop d.nctl).map (showCtl d.g))
   let items := String.intercalate "," (s.wl.map showItem)
-  let pend := pending d.g s.wl
+  -- length and FNV hash of `pending d.g s.wl` without building it (4 MiB file ranges): `pending_length`, `foldPending_eq`
+  let pendLen := backlog s.wl
+  let pendHash := foldPending d.g (fun (h : UInt64) x => (h ^^^ x.toUInt64) * 1099511628211) s.wl 14695981039346656037
   let acc := if s.closed then "-" else s!"{alen}:{ahash}"
   let edge := if d.g.mode == .et && s.reg && !s.closed then b2s s.edgeDue else "-"
-  let str := s!"closed={b2s s.closed} left={s.left} wl=[{items}] pend={pend.length}:{Drv.fnv pend} acc={acc} wadded={b2s s.isWAdded} reg={b2s s.reg} kout={b2s (s.reg && s.kOut)} dis={b2s s.disarmed} edge={edge} ctl=[{ctl}] wire={wlen}:{whash} onclose={s.onClose} wtimer={b2s s.wTimer}"
+  let str := s!"closed={b2s s.closed} left={s.left} wl=[{items}] pend={pendLen}:{pendHash} acc={acc} wadded={b2s s.isWAdded} reg={b2s s.reg} kout={b2s (s.reg && s.kOut)} dis={b2s s.disarmed} edge={edge} ctl=[{ctl}] wire={wlen}:{whash} onclose={s.onClose} wtimer={b2s s.wTimer}"
   ({ d with s := { s with wire := [], accepted := [] }, wlen, whash, alen, ahash, nctl := s.ctl.length }, str)
 
 inductive Call
   | write (b : Bytes) (ks : List KAns)
   | writev (bs : List Bytes) (ks : List KAns)
   | sendfile (off len : Nat) (ks : List KAns)
+  | sendfileNoDup (off len : Nat) (ks : List KAns)
 
-/-- "write <payload> K=<k>" | "writev <m> <payload>… K=<k>" | "sendfile <off> <len> K=<ks>" -/
+/-- "write <payload> K=<k>" | "writev <m> <payload>… K=<k>" | "sendfile <off> <len> K=<ks> [dup=0]" -/
 def parseCall (g : Cfg) (ws : List String) : Option Call := do
   let ks ← parseKs ((Drv.field ws "K").getD "-")
   match ws with
@@ -74,6 +77,10 @@ def parseCall (g : Cfg) (ws : List String) : Option Call := do
     let off ← off.toNat?
     let len ← len.toNat?
     if off > g.fsize then none else some (.sendfile off len ks)
+  | ["sendfile", off, len, _, "dup=0"] =>                   -- dup(2) of the file descriptor fails
+    let off ← off.toNat?
+    let len ← len.toNat?
+    if off > g.fsize then none else some (.sendfileNoDup off len ks)
   | _ => none
 
 /-- the model's step functions for the three calls (`ConnFull.step` is defined through the same) -/
@@ -81,6 +88,7 @@ def rawCall (g : Cfg) (s : S) : Call → S × Ret
   | .write b ks => writeOp g s b ks
   | .writev bs ks => writevOp g s bs ks
   | .sendfile off len ks => sendfileOp g s off len ks
+  | .sendfileNoDup off len ks => sendfileNoDupOp g s off len ks
 
 /-- a call of the sequential harness: if it flipped the flag (fatal error) its own goroutine runs the
     teardown right after the unlock -/
